@@ -12,9 +12,9 @@ TRUSTED = vcheck.STD_TRUSTED + [
     "translator harness/cmd/genlex (go/ast over bql/lexer/lexer.go: keyword, single-symbol, literal-type tables, rune "
     "constants, lastTokenType sets; aborts on any unexpected statement shape in lexKeyword/lexToken/isSingleSymbolToken/"
     "consumeKeyword/lexLiteral's type switch)",
-    "unicode.IsLetter/IsDigit/IsSpace/ToLower/EqualFold: ASCII and Latin-1 computed in Coq (coq/Lexer/Unicode.v), beyond "
-    "U+00FF only the 14 code points of extra_table; the harness generates no other non-Latin-1 rune; the structural "
-    "theorems hold for every classification (Section variable U)",
+    "unicode.IsLetter/IsDigit/IsSpace/ToLower: ASCII computed in Coq, all other code points looked up in the range tables "
+    "that genlex copies from the Go toolchain's unicode package into Gen/LexTablesGen.v on every run; EqualFold modelled for "
+    "ASCII keywords (incl. U+017F ~ s, U+212A ~ k); the structural theorems hold for every classification (parameter U)",
     "UTF-8 decoding re-implemented in Gallina (coq/Lexer/Utf8.v), tied by the correspondence runs (invalid, truncated, "
     "overlong and surrogate encodings are generated)",
     "channel closure / capacities 0,1,2,64 are observed on the implementation, not modelled (the model is the sequence "
@@ -321,9 +321,7 @@ def run(ctx):
     ctx.cov["samples"] = [{"in": bytes.fromhex(r["in"]).decode("utf-8", "replace"),
                            "toks": [[k, bytes.fromhex(t).decode("utf-8", "replace")] for k, t in r["toks"]]}
                           for r in rows if r["g"] == "stmt"][:3]
-    ctx.assumptions += ["agreement with the implementation is claimed for inputs whose non-Latin-1 runes are among the 14 code "
-                        "points of Unicode.extra_table (generated inputs outside are skipped and counted: %s)"
-                        % trailer.get("skipped_outside_unicode_domain")]
+    ctx.assumptions += ["unicode classes come from the toolchain the harness is built with (tables regenerated on every run)"]
 
 
 def lex_real(text_bytes):
